@@ -110,6 +110,9 @@ pub struct Vm {
   /// The queue of runnable fibers
   fiber_queue: VecDeque<Ref<Fiber>>,
 
+  /// Importing fibers paired with the fiber that runs the imported module for them
+  pending_imports: Vec<(Ref<Fiber>, Ref<Fiber>)>,
+
   /// The root directory
   root_dir: PathBuf,
 
@@ -191,6 +194,7 @@ impl Vm {
       gc,
       files: VmFiles::default(),
       fiber_queue: VecDeque::new(),
+      pending_imports: vec![],
       builtin,
       root_dir,
       packages: Map::default(),
